@@ -249,18 +249,6 @@ Qed.
 Lemma qcll_close0 A B : qcll_close 0 A B = true -> A = B.
 Proof. apply list_eqb_imp. apply list_eqb_imp. apply qc_close0. Qed.
 
-(* sqrtprec_ok at tolerance 0: the observed S is a square root, in the sense of the theorems, of the precision
-   the user specified *)
-Theorem sqrtprec_ok_sound f n g S P : sqrtprec_ok 0 f n g S = true -> user_prec f n g = Some P ->
-  sqrt_law Qc 0%Qc Qcplus Qcmult n S P.
-Proof.
-  unfold sqrtprec_ok. intros H E. rewrite E in H.
-  apply andb_true_iff in H as [H _]. apply andb_true_iff in H as [Hs Hg].
-  apply q_shape_wf in Hs as [_ Hw]. apply qcll_close0 in Hg.
-  intros v Hv. rewrite <- Hg. unfold q_gram, qmatmul, qtranspose.
-  symmetry. apply (gram_law Qc 0%Qc 1%Qc Qcplus Qcmult Qcminus Qcopp Qcrt); assumption.
-Qed.
-
 (* ---------- the certificate of one transition, at tolerance 0, is the Prop-level normal equation ---------- *)
 Lemma qmaxabs_nonneg v : (0 <= qmaxabs v)%Q.
 Proof.
@@ -300,16 +288,43 @@ Proof.
   - apply IH; [lia | exact Hr].
 Qed.
 
-Lemma vclose_sup0 a b : vclose_sup 0 a b = true -> a = b.
+Lemma vclose_rel0 a b : vclose_rel 0 a b = true -> a = b.
 Proof.
-  unfold vclose_sup. intros H. apply andb_true_iff in H as [Hl Hq].
+  unfold vclose_rel. intros H. apply andb_true_iff in H as [Hl Hq].
   apply Nat.eqb_eq in Hl. apply Qle_bool_iff in Hq. rewrite Qmult_0_l in Hq.
   apply qvsub_zero_eq; assumption.
 Qed.
 
-Theorem check_draw_sound n ls pr e x : check_draw 0 n ls pr e x = true ->
+Lemma vclose_scale0 sc a b : vclose_scale 0 sc a b = true -> a = b.
+Proof.
+  unfold vclose_scale. intros H. apply andb_true_iff in H as [Hl Hq].
+  apply Nat.eqb_eq in Hl. apply Qle_bool_iff in Hq. rewrite Qmult_0_l in Hq.
+  apply qvsub_zero_eq; assumption.
+Qed.
+
+Theorem check_draw_sound n ls pr xcur e x : check_draw 0 n ls pr xcur e x = true ->
   normal_eq Qc 0%Qc Qcplus Qcmult n (mk_liks n ls) pr e x.
 Proof.
   unfold check_draw, normal_eq. intros H. apply andb_true_iff in H as [_ H].
-  apply vclose_sup0 in H. exact H.
+  apply vclose_scale0 in H. exact H.
 Qed.
+
+Lemma mclose_rel0 A B : mclose_rel 0 A B = true -> A = B.
+Proof.
+  unfold mclose_rel. apply list_eqb_imp. intros r1 r2 H. apply andb_true_iff in H as [Hl Hq].
+  apply Nat.eqb_eq in Hl. apply Qle_bool_iff in Hq. rewrite Qmult_0_l in Hq.
+  apply qvsub_zero_eq; assumption.
+Qed.
+
+(* sqrtprec_ok at tolerance 0: the observed S is a square root, in the sense of the theorems, of the precision
+   the user specified *)
+Theorem sqrtprec_ok_sound f n g S P : sqrtprec_ok 0 f n g S = true -> user_prec f n g = Some P ->
+  sqrt_law Qc 0%Qc Qcplus Qcmult n S P.
+Proof.
+  unfold sqrtprec_ok. intros H E. rewrite E in H.
+  apply andb_true_iff in H as [H _]. apply andb_true_iff in H as [Hs Hg].
+  apply q_shape_wf in Hs as [_ Hw]. apply mclose_rel0 in Hg.
+  intros v Hv. rewrite <- Hg. unfold q_gram, qmatmul, qtranspose.
+  symmetry. apply (gram_law Qc 0%Qc 1%Qc Qcplus Qcmult Qcminus Qcopp Qcrt); assumption.
+Qed.
+
